@@ -1420,6 +1420,17 @@ def plan_c15(ctx):
         b["group"] = g
         b["gcheck"] = "same_bag"
         add(ctx, [surface_engine(a), surface_engine(b)])
+    # one goal VALUE entered two times on one path: its variables must be new at every entry
+    for i in range(T(ctx, 60, 600)):
+        c = gen.twice_program(rng, i)
+        g = "%s-%s" % (ctx["prop"], c["id"])
+        a = as_case(ctx, c, "-surf")
+        b = as_case(ctx, dict(c), "-api")
+        b.pop("backend")
+        a["group"] = g
+        b["group"] = g
+        b["gcheck"] = "same_bag"
+        add(ctx, [surface_engine(a), b])
 
 
 SURF_ASSUME = ["generated programs that compile; programs the macro rejects are not part of any property",
